@@ -13,18 +13,20 @@ class C02Sketch(Scenario):
 
     def gen_config(self, rng):
         cfg = structs.SketchSubject.gen_cfg(rng)
-        cfg.update({"subject": rng.choice(SUBJECTS), "steps": rng.between(4, self.max_steps), "big": rng.chance(1, 3)})
+        cfg.update({"subject": rng.choice(SUBJECTS), "steps": rng.between(4, self.max_steps), "big": rng.chance(1, 3),
+                    # half of the runs stay plain add/remove histories (the fault-free configuration)
+                    "extras": rng.chance(1, 2)})
         return cfg
 
     def gen_step(self, rng):
         if self.n_gen >= self.cfg["steps"]:
             return None
         self.n_gen += 1
-        if rng.chance(1, 14):
+        if self.cfg.get("extras") and rng.chance(1, 8):
             # a fresh sketch takes this one's counts by join() and is then used on its own: two live objects
             return {"op": "lend", "k": rng.below(self.cfg["universe"]), "n": rng.choice((1, 3, 1000)),
                     "rm": rng.chance(1, 2)}
-        if rng.chance(1, 14):
+        if self.cfg.get("extras") and rng.chance(1, 8):
             # leave the default query mode and come back to it by one of the documented spellings
             return {"op": "qmode", "via": rng.choice(("mean", "mean-min")), "back": rng.choice((None, None, "min", "MIN", "default"))}
         if rng.chance(1, 10):
